@@ -73,6 +73,7 @@ class UfuncMonitor:
         out = kwargs.get("out")
         if out is not None:
             tok["out_meta"] = [monitors.meta_of(o) if isinstance(o, pb.Signal) else None for o in out]
+            tok["out_prev"] = [None if o is None else snap(o) for o in out]
         return tok
 
     def post(self, point, args, kwargs, tok, res, exc):
@@ -97,12 +98,12 @@ class UfuncMonitor:
         try:
             with warnings.catch_warnings():
                 warnings.simplefilter("ignore")
-                if out is not None and "where" in kw:
-                    # masked update: start from the previous contents of the targets
-                    init = tuple((snap_o.copy() if isinstance(snap_o, np.ndarray) else None) for snap_o in tok.get("out_prev", ())) or None
-                    ref = None
+                if out is not None and all(p_ is None or isinstance(p_, np.ndarray) for p_ in tok.get("out_prev", [None])):
+                    # same call on independent copies of the targets' previous contents (matters for where= / dtype= / casting=)
+                    targets = tuple(None if p_ is None else p_.copy() for p_ in tok["out_prev"])
+                    ref = ufunc(*tok["inputs"], out=targets, **kw)
                 else:
-                    ref = ufunc(*tok["inputs"], **kw)
+                    ref = ufunc(*tok["inputs"], **{k: v for k, v in kw.items() if k != "where"}) if out is not None else ufunc(*tok["inputs"], **kw)
         except Exception as e:  # noqa
             ref_exc = e
             ref = None
@@ -196,6 +197,10 @@ class UfuncMonitor:
                 ctx.violation(o, f"np.{ufunc.__name__}: result shape/dtype {gv.shape}/{gv.dtype}, on the underlying arrays {wv.shape}/{wv.dtype}",
                               None, dict(feats, what="shape_dtype"))
                 continue
+            if "where" in kw and tgt is None:
+                # without a target the unselected positions are uninitialised memory: compare the selected ones only
+                msk = np.broadcast_to(np.asarray(to_np(kw["where"]), dtype=bool), gv.shape)
+                gv, wv = gv[msk], wv[msk]
             eq = np.array_equal(gv, wv, equal_nan=True) if gv.dtype.kind in "fc" else np.array_equal(gv, wv)
             if not eq:
                 ctx.violation(o, f"np.{ufunc.__name__} on signals differs from the same ufunc on the underlying arrays "
@@ -291,9 +296,21 @@ def wl_ufunc(ctx, idx, rng):
         if targets is not None and any(t is not None for t in targets):
             kw["out"] = tuple(targets) if len(targets) > 1 or rng.random() < 0.5 else targets[0]
             outform = "out"
+            extra = rng.random()
+            if extra < 0.35:
+                bshape = np.broadcast_shapes(*[np.shape(v) for v in raw])
+                mask = rng.random(bshape) < 0.5
+                kw["where"] = mask if rng.random() < 0.7 else pb.Signal(mask, sample_rate=1 * u.Hz)
+                outform = "out+where"
+            elif extra < 0.5 and all(t is None or np.asarray(unwrap(t)).dtype.kind == "f" for t in targets):
+                kw["casting"] = "same_kind"
+                outform = "out+casting"
     with warnings.catch_warnings():
         warnings.simplefilter("ignore")
-        res, exc = ctx.call("ufunc", uf, *ops, expect="any", **kw)
+        try:                      # (ctx.call has its own `where=` label argument, which would swallow the ufunc's)
+            res, exc = uf(*ops, **kw), None
+        except Exception as e:    # judged by the monitor
+            res, exc = None, e
     if exc is not None and raw_ok and ctx.counters["ufunc_events"] == before:
         # NumPy never reached Signal.__array_ufunc__ although the raw operation is valid (e.g. Quantity refused first)
         ctx.count("not_dispatched_to_signal")
